@@ -262,7 +262,7 @@ theorem fcDoc_eq (c : Codec) (x : FC) (hok : okFC x = true) :
   obtain ⟨hE, hres⟩ := okFC_extra x hok
   have h1 : eraseKey "bbox" (x.extra.getD []) = x.extra.getD [] :=
     eraseKey_none _ _ fun kv hkv => (hres kv hkv).2.1
-  unfold fcDoc
+  unfold fcDoc fcDocG
   rw [h1, valOfMembers_ok _ hE]
   cases x.bbox <;> simp [fcBBoxPart]
 
@@ -392,6 +392,6 @@ theorem fc_remarshal' (c : Codec) (x : FC) (hok : okFC x = true)
       have h1 : okFeature g = true := by simpa using List.all_eq_true.1 hfs (some g) hf
       have h2 : noNilRing g.geom = true := by simpa using List.all_eq_true.1 hr (some g) hf
       simp [featureMember, feature_remarshal' c g h1 h2]
-  simp only [fcDoc, canonFC, canonProps_getD _ hE, Option.getD_some, hfeat]
+  simp only [fcDoc, fcDocG, canonFC, canonProps_getD _ hE, Option.getD_some, hfeat]
 
 end Orb.GeoJSON
